@@ -125,6 +125,42 @@ pub fn run(ctx: &Ctx) -> i32 {
             }
         });
     }
+    // character classes over control characters and letters (the printing stage decides ranges)
+    let cl: Vec<String> = "\t\n\r -[]^\\abnoprstuvz".chars().map(|c| c.to_string()).collect();
+    let mut triples = vec![];
+    for a in 0..cl.len() {
+        for b in a + 1..cl.len() {
+            for c in b + 1..cl.len() {
+                triples.push(vec![cl[a].clone(), cl[b].clone(), cl[c].clone()]);
+            }
+        }
+    }
+    par_for(&ctx.run, triples.len(), |i, st| {
+        st.count("control_and_letter_class_sets");
+        check_case(ctx, st, &triples[i], Settings::new(0));
+    });
+    // large sparse automata: many states over many distinct symbols, shared suffixes (minimality matters)
+    let n_large = if ctx.thorough { 60 } else { 6 };
+    par_for(&ctx.run, n_large, |i, st| {
+        let mut rng = Rng::new(seed, 0x161_0000 + i as u64);
+        let n_sym = 40 + rng.below(100);
+        let base = if i % 2 == 0 { 0x4e00u32 } else { 0x100 };
+        let sym: Vec<String> = (0..n_sym).filter_map(|k| char::from_u32(base + k as u32)).map(|c| c.to_string()).collect();
+        let k = 30 + rng.below(60);
+        let suffix: String = (0..3 + rng.below(6)).map(|_| rng.pick(&sym).clone()).collect();
+        let tcs: Vec<String> = (0..k)
+            .map(|_| {
+                let l = 4 + rng.below(9);
+                let mut s: String = (0..l).map(|_| rng.pick(&sym).clone()).collect();
+                if rng.chance(2, 3) {
+                    s.push_str(&suffix);
+                }
+                s
+            })
+            .collect();
+        st.count("large_sparse_inputs");
+        check_case(ctx, st, &tcs, Settings::new(0));
+    });
     let n = if ctx.thorough { 200_000 } else { 8_000 };
     let alphabets: Vec<(String, Vec<String>)> = gen::ALPHABETS.iter().map(|a| (a.to_string(), gen::alphabet(a))).collect();
     par_for(&ctx.run, n, |i, st| {
